@@ -66,6 +66,9 @@ def unrelated(kind, tid=1):
     if kind == 'D':
         # a record whose name merely starts like the lookup records' name
         return E.ev('VFS_LOOKUP_DONE', 0, tid=tid, data=B.le(0x77, 8) + b'/done'.ljust(24, b'\0'))
+    if kind == 'S':
+        # the START of another call of the same thread whose END never arrives (e.g. a throttle window closed by another thread)
+        return E.ev('BSC_getppid', 1, (1, 2, 3, 4), tid=tid)
     if kind == 'X':
         # the own terminate record of the thread (a decodable kernel trace-data record naming this very thread)
         return E.ev('TRACE_DATA_THREAD_TERMINATE', 0, (tid, 0, 0, 0), tid=tid)
@@ -86,7 +89,7 @@ def gap_codes():
     global _GAP_CODES
     if _GAP_CODES is None:
         _GAP_CODES = {E.n2i(n) for n in ('BSC_getpid', 'MACH_WAIT', 'TRACE_DATA_NEWTHREAD', 'TRACE_DATA_THREAD_TERMINATE', 'TRACE_LOST_EVENTS',
-                                          'MACH_vm_page_release', 'VFS_LOOKUP_DONE')} | {0xdead0000}
+                                          'MACH_vm_page_release', 'VFS_LOOKUP_DONE', 'BSC_getppid')} | {0xdead0000}
     return _GAP_CODES
 
 
@@ -218,7 +221,7 @@ class C08(Check):
     level = 'model_checking'
     rule = ('texts of every byte length 0..184 x 5 content patterns (ASCII; 2-byte and 3-byte UTF-8 characters placed to '
             'straddle record boundaries; all separators; blanks and dots; characters that mean something to str.format, %-formatting and regexes) chunked kernel-style: (a) stand-alone VFS_LOOKUP, TRACE_STRING_GLOBAL (lengths '
-            '0..184) and THREADNAME / THREADNAME_PREV (0..63) record sequences, bare and with an unrelated same-thread record (undecoded, unknown, decodable NONE, a kernel trace-data record with non-text bytes, a VFS_LOOKUP_DONE record, the own terminate record of the thread, the lost-events marker, a complete START/END pair) in every gap between the chunk records, and preceded by the START record of an earlier text whose END was lost - exactly one trace with exactly the text (and '
+            '0..184) and THREADNAME / THREADNAME_PREV (0..63) record sequences, bare and with an unrelated same-thread record (undecoded, unknown, decodable NONE, a kernel trace-data record with non-text bytes, a VFS_LOOKUP_DONE record, the own terminate record of the thread, the lost-events marker, the never-ended START of another call, a complete START/END pair) in every gap between the chunk records, and preceded by the START record of an earlier text whose END was lost - exactly one trace with exactly the text (and '
             'vnode id / string id), tables hold exactly the announced text; (b) every path-taking BSD decoder (66 names, frozen '
             'slot table) x one lookup of every length x patterns; x k in {0,1,2,3,6} lookups of boundary lengths '
             '{0,1,23,24,25,55,56,57,184} x an unrelated same-thread record (undecoded, unknown, decodable NONE, kernel trace data, look-alike, the own terminate record of the thread, the lost-events marker) in every gap between lookups, and (lengths 25/56/184) between the RECORDS of each multi-record lookup. '
@@ -247,7 +250,7 @@ class C08(Check):
                 for pattern in range(NPAT):
                     first = {'lookup': 24, 'gstring': 16}.get(kind, 32)
                     nrec = 1 if L <= first else 1 + -(-(L - first) // 32)
-                    for gap in ((None, 'stale') if nrec < 2 else (None, 'K', 'U', 'W', 'T', 'D', 'X', 'L', 'pair', 'stale')):
+                    for gap in ((None, 'stale') if nrec < 2 else (None, 'K', 'U', 'W', 'T', 'D', 'X', 'L', 'S', 'pair', 'stale')):
                         try:
                             bad = judge_standalone(kind, L, pattern, gap)
                         except Exception as ex:
@@ -273,7 +276,7 @@ class C08(Check):
                         self._enc(acc, name, texts, {})
                         if li < 3:
                             for pos in range(k + 1):
-                                for kind in ('K', 'U', 'W', 'T', 'D', 'X', 'L'):
+                                for kind in ('K', 'U', 'W', 'T', 'D', 'X', 'L', 'S'):
                                     self._enc(acc, name, texts, {pos: kind})
                         if k >= 2:
                             # the SAME text looked up k times (only the vnode ids differ), on increasing ticks and all on one tick
@@ -284,7 +287,7 @@ class C08(Check):
                             self._enc(acc, name, texts, {}, same_tick=True)
                         if li in (4, 6, 8):
                             for pos in range(k):
-                                for kind in ('K', 'W', 'T', 'D', 'X', 'pair'):
+                                for kind in ('K', 'W', 'T', 'D', 'X', 'S', 'pair'):
                                     self._enc(acc, name, texts, {100 + pos: kind})
 
     def _enc(self, acc, name, texts, gaps, same_tick=False):
